@@ -141,6 +141,7 @@ func init() {
 		v := tb.App("bytes2big", SInt, row, b.slOff(), b.slLen())
 		e.assume(st, tb.Ge(v, tb.Int(0)))
 		e.assume(st, tb.Implies(tb.Eq(b.slLen(), tb.Int(0)), tb.Eq(v, tb.Int(0))))
+		e.setGhost(st, "setbyteslen", b.slLen()) // ghost: byte length of the last big integer built from bytes
 		setBV(e, st, args[0].T[0], v)
 		k(st, args[0])
 	}
